@@ -9,9 +9,16 @@ Part 2 (`Props/C07Sem.lean`): execution semantics — the first failing call sit
 namespace Convergen.Props.C07
 open Convergen
 
-/-- **check after every error-capable top-level assignment.**  (`Bridge.assignmentToString_eq`) -/
-theorem check_iff_retError (f : Function) (a : Assignment) :
-    assignmentToString f a = a.render ++ (if a.retError then errCheck f else "") := rfl
+/-- **a check after every error-capable assignment, at every nesting depth.**  (`Bridge.assignmentToString_eq`
+ties this to `AssignmentToString` / `nestStructToString`.) -/
+theorem simple_checked (f : Function) (l r : String) (e : Bool) :
+    assignmentToString f (.simpleField l r e) = renderSimple l r e ++ (if e then errCheck f else "") := by
+  rw [assignmentToString]
+
+/-- a nested struct block renders its contents with the same function — checks included -/
+theorem nest_recurses (f : Function) (i n : String) (cs : List Assignment) :
+    assignmentToString f (.nestStruct i n cs) = renderNest i n (assignmentToStringList f cs) := by
+  rw [assignmentToString]
 
 /-- the check returns: `return nil, err` when the destination is an allocated pointer result,
 a bare `return` (named results carry `err`) otherwise -/
@@ -99,9 +106,9 @@ theorem mapped_needs_error_result (ctx : BCtx) (lhs : Node) (pos : String) (n? :
     · cases h
     · cases h
 
-/-! ### finding (DESIGN §5 #11): a nested struct block is rendered with the plain `String()` of its
-contents — `NestStruct.RetError()` is false and nothing inside is followed by a check — so an
-error-capable assignment on a nested path is unchecked and a later call overwrites `err`. -/
+/-! ### regression witness of the repaired DESIGN §5 #11: error-capable assignments inside a nested
+struct block are followed by their check (before the repair the block was rendered with the plain
+`String()` of its contents and the second call overwrote `err`) -/
 
 def nestedTwo : Assignment :=
   .nestStruct "" "" [.simpleField "dst.In.X" "Atoi(src.In.X)" true, .simpleField "dst.In.Y" "Atoi(src.In.Y)" true]
@@ -112,10 +119,143 @@ def fn0 : Function :=
     preProcess := none, postProcess := none }
 
 example : assignmentToString fn0 nestedTwo =
-    "dst.In.X, err = Atoi(src.In.X)\ndst.In.Y, err = Atoi(src.In.Y)\n" := by decide
+    "dst.In.X, err = Atoi(src.In.X)\nif err != nil {\nreturn nil, err\n}\n" ++
+    "dst.In.Y, err = Atoi(src.In.Y)\nif err != nil {\nreturn nil, err\n}\n" := by decide
 
-/-- non-vacuity: the same call at top level is checked -/
-example : assignmentToString fn0 (.simpleField "dst.X" "Atoi(src.X)" true) =
-    "dst.X, err = Atoi(src.X)\nif err != nil {\nreturn nil, err\n}\n" := by decide
+/-! ## execution: the first failing call site decides
+
+The generated body is a tree of statements; an error-capable statement `x, err = f()` is a *call
+site*.  By `simple_checked` / `nest_recurses` each one is immediately followed by
+`if err != nil { return … }`.  `exec` is the small-step reading of that text: a fault plan `φ` says
+which sites fail; `spec` is the property statement. -/
+
+abbrev Site := Nat
+
+structure St where
+  trace : List Site := []
+  err : Option Site := none
+  returned : Bool := false
+  next : Site := 0
+  deriving Repr, DecidableEq
+
+/-- `x, err = f()` followed by the check: run the call, record it; a failure returns -/
+def stepCall (φ : Site → Bool) (s : St) : St :=
+  if s.returned then s else
+  let k := s.next
+  let failed := φ k
+  { trace := s.trace ++ [k], err := if failed then some k else none, returned := failed, next := k + 1 }
+
+mutual
+def exec (φ : Site → Bool) : Assignment → St → St
+  | .simpleField _ _ true, s => stepCall φ s
+  | .simpleField _ _ false, s => s
+  | .nestStruct _ _ cs, s => execList φ cs s
+  | .skipField _, s => s
+  | .noMatchField _, s => s
+  | .sliceAssignment .., s => s
+  | .sliceLoopAssignment .., s => s
+  | .sliceTypecastAssignment .., s => s
+def execList (φ : Site → Bool) : List Assignment → St → St
+  | [], s => s
+  | a :: as, s => execList φ as (exec φ a s)
+end
+
+mutual
+/-- number of error-capable call sites, in execution order -/
+def sites : Assignment → Nat
+  | .simpleField _ _ true => 1
+  | .nestStruct _ _ cs => sitesList cs
+  | _ => 0
+def sitesList : List Assignment → Nat
+  | [] => 0
+  | a :: as => sites a + sitesList as
+end
+
+/-- the specification: with `n` sites numbered from `s.next`, run them in order until the first
+one that the plan fails; that one's error is returned and nothing after it is called -/
+def spec (φ : Site → Bool) : Nat → St → St
+  | 0, s => s
+  | n + 1, s => spec φ n (stepCall φ s)
+
+theorem stepCall_returned (φ : Site → Bool) (s : St) (h : s.returned = true) : stepCall φ s = s := by
+  simp [stepCall, h]
+
+theorem spec_returned (φ : Site → Bool) : ∀ n s, s.returned = true → spec φ n s = s
+  | 0, _, _ => rfl
+  | n + 1, s, h => by rw [spec, stepCall_returned φ s h]; exact spec_returned φ n s h
+
+theorem spec_add (φ : Site → Bool) : ∀ m n s, spec φ (m + n) s = spec φ n (spec φ m s)
+  | 0, n, s => by simp [spec]
+  | m + 1, n, s => by
+    have : m + 1 + n = (m + n) + 1 := by omega
+    rw [this, spec, spec, spec_add φ m n]
+
+mutual
+theorem exec_eq_spec (φ : Site → Bool) : ∀ (a : Assignment) (s : St), exec φ a s = spec φ (sites a) s
+  | .simpleField _ _ true, s => by simp [exec, sites, spec]
+  | .simpleField _ _ false, s => by simp [exec, sites, spec]
+  | .nestStruct _ _ cs, s => by rw [exec, sites]; exact execList_eq_spec φ cs s
+  | .skipField _, s => by simp [exec, sites, spec]
+  | .noMatchField _, s => by simp [exec, sites, spec]
+  | .sliceAssignment .., s => by simp [exec, sites, spec]
+  | .sliceLoopAssignment .., s => by simp [exec, sites, spec]
+  | .sliceTypecastAssignment .., s => by simp [exec, sites, spec]
+theorem execList_eq_spec (φ : Site → Bool) : ∀ (as : List Assignment) (s : St), execList φ as s = spec φ (sitesList as) s
+  | [], s => by simp [execList, sitesList, spec]
+  | a :: as, s => by
+    rw [execList, sitesList, spec_add, ← exec_eq_spec φ a s]
+    exact execList_eq_spec φ as _
+end
+
+/-- what `spec` means: if site `k` is the first one the plan fails, the function returns exactly
+that error, the trace is the sites `0..k`, and no later site is called -/
+theorem spec_first_failure (φ : Site → Bool) (n k : Nat) (hk : k < n) (hf : φ k = true)
+    (hbefore : ∀ j, j < k → φ j = false) :
+    (spec φ n {}).err = some k ∧ (spec φ n {}).trace = List.range (k + 1) ∧ (spec φ n {}).returned = true := by
+  have run : ∀ m, m ≤ k → spec φ m {} = { trace := List.range m, err := none, returned := false, next := m } := by
+    intro m
+    induction m with
+    | zero => intro _; simp [spec]
+    | succ m ih =>
+      intro hm
+      have hm' : m ≤ k := by omega
+      rw [spec_add φ m 1, ih hm']
+      simp [spec, stepCall, hbefore m (by omega), List.range_succ]
+  have hk1 : spec φ (k + 1) {} = { trace := List.range (k + 1), err := some k, returned := true, next := k + 1 } := by
+    rw [spec_add, run k (Nat.le_refl k)]
+    simp [spec, stepCall, hf, List.range_succ]
+  have hsplit : n = (k + 1) + (n - (k + 1)) := by omega
+  rw [hsplit, spec_add, hk1, spec_returned]
+  · exact ⟨rfl, rfl, rfl⟩
+  · rfl
+
+/-- … and if no site fails the error is nil and every site has been called once, in order -/
+theorem spec_no_failure (φ : Site → Bool) (n : Nat) (h : ∀ j, j < n → φ j = false) :
+    spec φ n {} = { trace := List.range n, err := none, returned := false, next := n } := by
+  induction n with
+  | zero => simp [spec]
+  | succ n ih =>
+    rw [spec_add, ih (fun j hj => h j (by omega))]
+    simp [spec, stepCall, h n (by omega), List.range_succ]
+
+/-- **T7.1 (first error returned, nothing outrun).** For every body — statements at top level and in
+nested struct blocks alike — and every fault plan: the function returns the error of the first
+failing call site in execution order and calls none after it; with no failure it returns a nil
+error after calling every site once. -/
+theorem first_error_returned (φ : Site → Bool) (body : List Assignment) (k : Nat) (hk : k < sitesList body)
+    (hf : φ k = true) (hbefore : ∀ j, j < k → φ j = false) :
+    (execList φ body {}).err = some k ∧ (execList φ body {}).trace = List.range (k + 1) := by
+  rw [execList_eq_spec]
+  exact ⟨(spec_first_failure φ _ k hk hf hbefore).1, (spec_first_failure φ _ k hk hf hbefore).2.1⟩
+
+theorem no_error_without_failure (φ : Site → Bool) (body : List Assignment) (h : ∀ j, j < sitesList body → φ j = false) :
+    (execList φ body {}).err = none ∧ (execList φ body {}).trace = List.range (sitesList body) := by
+  rw [execList_eq_spec, spec_no_failure φ _ h]
+  exact ⟨rfl, rfl⟩
+
+/-- non-vacuity: two sites in a nested block and one after it; the first one fails -/
+example : (execList (fun k => k == 0) [nestedTwo, .simpleField "dst.N" "f()" true] {}).trace = [0] ∧
+    (execList (fun k => k == 0) [nestedTwo, .simpleField "dst.N" "f()" true] {}).err = some 0 ∧
+    sitesList [nestedTwo, .simpleField "dst.N" "f()" true] = 3 := by decide
 
 end Convergen.Props.C07
